@@ -649,11 +649,21 @@ def extract():
     # HelperAuthentication: extension present ? forward : 401
     qraw = read(H + "/query/mod.rs")
     qt = strip_comments(cut_tests(qraw))
-    ma = re.search(r"match req\.extensions\(\)\.get::<ClientIdentity<F::Identity>>\(\)\s*\{\s*Some\(ClientIdentity\(_\)\) => self\.inner\.call\(req\)\.left_future\(\),\s*None => ready\(Ok\(\(\s*StatusCode::UNAUTHORIZED,", qt)
-    if ma:
-        record("routes.auth_layer", H + "/query/mod.rs", qraw, re.search(r"fn call\(&mut self, req: Request<B>\)", qraw), "extension present ? forward : 401")
+    # the whole body of HelperAuthentication::call must be the single match
+    ok_shape = False
+    mi = re.search(r"impl<[^>]*>\s*Service<Request<B>>\s*for\s*HelperAuthentication<S,\s*F>", qt)
+    mc = re.search(r"fn call\s*\(\s*&mut self\s*,\s*(mut\s+)?req\s*:\s*Request<B>\s*\)\s*->\s*Self::Future\s*\{", qt[mi.end():]) if mi else None
+    if mc:
+        c0 = mi.end() + mc.end() - 1
+        cbody = re.sub(r"\s+", "", qt[c0 + 1:paren_end(qt, c0, "{", "}")])
+        ok_shape = mc.group(1) is None and re.fullmatch(
+            r"matchreq\.extensions\(\)\.get::<ClientIdentity<F::Identity>>\(\)\{"
+            r"Some\(ClientIdentity\(_\)\)=>self\.inner\.call\(req\)\.left_future\(\),"
+            r"None=>ready\(Ok\(\(StatusCode::UNAUTHORIZED,\"[^\"]*\",?\)\.into_response\(\)\)\)\.right_future\(\),?\}", cbody) is not None
+    if ok_shape:
+        record("routes.auth_layer", H + "/query/mod.rs", qraw, re.search(r"for HelperAuthentication<S, F>", qraw) or re.search(r"HelperAuthentication", qraw), "extension present ? forward : 401")
     else:
-        fail("routes.auth_layer", "HelperAuthentication::call no longer has the shape `Some(ClientIdentity(_)) => inner.call(req), None => 401`")
+        fail("routes.auth_layer", "HelperAuthentication::call no longer has the shape `match extension { Some(ClientIdentity(_)) => inner.call(req), None => 401 }`")
 
     L = []
     L.append("import IpaVerif.Model.AuthTypes")
